@@ -887,5 +887,5 @@ func TestCrashPoints(t *testing.T) {
 
 // witnesses of the recorded snapshot findings are plain cases with a snapshot threshold
 func TestReplay(t *testing.T) {
-	kit.Replay[Case](t, map[string]func(kit.RawCase) kit.Outcome{"crash": kit.ReplaySub(execCase), "snap": kit.ReplaySub(execSnap)})
+	kit.Replay[Case](t, map[string]func(kit.RawCase) kit.Outcome{"crash": kit.ReplaySub(execCase), "snap": kit.ReplaySub(execSnap), "big": kit.ReplaySub(execBig)})
 }
